@@ -461,8 +461,12 @@ class SCondition:
             self.lock.owner = None
         dl = (s.now + timeout) if timeout is not None else None
         s.block(lambda: w["n"] or (dl is not None and s.now >= dl), dl, "cv.wait")
-        if not w["n"] and w in self.waiters:
-            self.waiters.remove(w)
+        if not w["n"]:
+            # by identity: waiter records of different threads compare equal as dicts
+            for i, x in enumerate(self.waiters):
+                if x is w:
+                    del self.waiters[i]
+                    break
         # re-acquire
         if saved is not None:
             self.lock._acquire_restore(saved)
